@@ -538,6 +538,10 @@ struct ModSnap {
     rule_vis: Vec<Result<bool, String>>,
     tmpl_vis: Vec<Result<bool, String>>,
     visible: Result<Vec<String>, String>,
+    /// get_transitive_dependencies(name), sorted
+    trans: Result<Vec<String>, String>,
+    /// validate_module(name) answered
+    validate: Result<(), String>,
 }
 
 #[derive(Clone, Debug, PartialEq)]
@@ -566,6 +570,8 @@ fn take_snapshot(mgr: &ModuleManager, names: &[String]) -> Snap {
             rule_vis: Vec::with_capacity(names.len()),
             tmpl_vis: Vec::with_capacity(names.len()),
             visible: Ok(vec![]),
+            trans: Ok(vec![]),
+            validate: Ok(()),
         };
         if let Ok(m) = mgr.get_module(name) {
             ms.gettable = true;
@@ -596,6 +602,14 @@ fn take_snapshot(mgr: &ModuleManager, names: &[String]) -> Snap {
                 v
             })
             .map_err(|e| e.to_string());
+        ms.trans = mgr
+            .get_transitive_dependencies(name)
+            .map(|mut v| {
+                v.sort();
+                v
+            })
+            .map_err(|e| e.to_string());
+        ms.validate = mgr.validate_module(name).map(|_| ()).map_err(|e| e.to_string());
         mods.push(ms);
     }
     let mut graph: Vec<(String, Vec<String>)> = mgr
@@ -1021,6 +1035,13 @@ impl Runner {
             if let Err(e) = &m.visible {
                 errs.push(format!("get_visible_rules({:?}) = Err({})", m.name, e));
             }
+            t.add("visibility_queries", 2);
+            if let Err(e) = &m.trans {
+                errs.push(format!("get_transitive_dependencies({:?}) = Err({})", m.name, e));
+            }
+            if let Err(e) = &m.validate {
+                errs.push(format!("validate_module({:?}) = Err({})", m.name, e));
+            }
             if !errs.is_empty() {
                 t.add("visibility_queries_that_returned_err", errs.len() as u64);
                 let cause = if dangling.is_empty() { "unexplained" } else { "dangling-import-of-deleted-module" };
@@ -1040,6 +1061,26 @@ impl Runner {
         }
         if dangling_state {
             t.inc("states_with_a_dangling_declaration");
+        }
+        // the transitive-dependency view: exactly the modules reachable over the import
+        // declarations of existing modules, and never the module itself (acyclicity as the API shows it)
+        if !dangling_state {
+            let (decl_edges, _) = observed_edges(&snap);
+            for (i, m) in snap.mods.iter().enumerate() {
+                let Ok(got) = &m.trans else { continue };
+                let mut want: Vec<String> = (0..snap.mods.len()).filter(|j| *j != i && reachable(snap.mods.len(), &decl_edges, i, *j)).map(|j| snap.mods[j].name.clone()).collect();
+                want.sort();
+                t.inc("transitive_dependency_views_compared");
+                if got.contains(&m.name) {
+                    push("cycle-accepted", "module-among-its-own-transitive-dependencies".into(), format!("after step {} ({}): get_transitive_dependencies({:?}) = {:?} contains the module itself", step, op.short(), m.name, got));
+                } else if *got != want {
+                    push(
+                        "transitive-dependencies-differ-from-declared-imports",
+                        if got.len() < want.len() { "dependency-missing" } else { "extra-dependency" }.into(),
+                        format!("after step {} ({}): get_transitive_dependencies({:?}) = {:?}; over the import declarations of the existing modules {:?} is reachable; import_graph {:?}", step, op.short(), m.name, got, want, snap.graph),
+                    );
+                }
+            }
         }
 
         // --- (iv) visibility values
